@@ -27,21 +27,21 @@ Definition vtypes : list vtype :=
     mkVT "EthernetPause" Pause_IsValid Pause_getters Pause_specs [] [];
     mkVT "HopByHopExtensionHeader" HBH_IsValid HBH_getters HBH_specs [] [];
     mkVT "ICMP" ICMP_IsValid ICMP_getters ICMP_specs [] [];
-    mkVT "ICMP4Redirect" R4_IsValid R4_getters R4_specs [] R4_findings_C02;
+    mkVT "ICMP4Redirect" R4_IsValid R4_getters R4_specs [] [];
     mkVT "ICMP6NeighborAdvertisement" NA_IsValid NA_getters NA_specs [] [];
     mkVT "ICMP6NeighborSolicitation" NS_IsValid NS_getters NS_specs [] [];
     mkVT "ICMP6Redirect" Redirect6_IsValid Redirect6_getters Redirect6_specs [] [];
     mkVT "ICMP6RouterAdvertisement" RA_IsValid RA_getters RA_specs [] [];
-    mkVT "ICMP6RouterSolicitation" RS_IsValid RS_getters RS_specs RS_findings_C01 RS_findings_C02;
+    mkVT "ICMP6RouterSolicitation" RS_IsValid RS_getters RS_specs [] [];
     mkVT "ICMPEcho" ICMPEcho_IsValid ICMPEcho_getters ICMPEcho_specs [] [];
     mkVT "IEEE1905" IEEE1905_IsValid IEEE1905_getters IEEE1905_specs [] [];
-    mkVT "IP4" IP4_IsValid IP4_getters IP4_specs IP4_findings_C01 IP4_findings_C02;
+    mkVT "IP4" IP4_IsValid IP4_getters IP4_specs [] [];
     mkVT "IP6" IP6_IsValid IP6_getters IP6_specs [] [];
-    mkVT "LLC" LLC_IsValid LLC_getters LLC_specs LLC_findings_C01 LLC_findings_C02;
-    mkVT "LLDP" LLDP_IsValid LLDP_getters LLDP_specs LLDP_findings_C01 LLDP_findings_C02;
+    mkVT "LLC" LLC_IsValid LLC_getters LLC_specs [] [];
+    mkVT "LLDP" LLDP_IsValid LLDP_getters LLDP_specs [] [];
     mkVT "RRCP" RRCP_IsValid RRCP_getters RRCP_specs [] [];
     mkVT "SNAP" SNAP_IsValid SNAP_getters SNAP_specs [] [];
-    mkVT "TCP" TCP_IsValid TCP_getters TCP_specs TCP_findings_C01 TCP_findings_C02;
+    mkVT "TCP" TCP_IsValid TCP_getters TCP_specs [] [];
     mkVT "UDP" UDP_IsValid UDP_getters UDP_specs [] [];
     mkVT "Unknown880a" U880a_IsValid U880a_getters U880a_specs [] [] ].
 
